@@ -8,7 +8,7 @@ func init() {
 	props["C04"] = &PropSpec{
 		ID: "C04", Level: "exploration", Scenarios: []string{"dex"},
 		Oracles:    func(w *World) []Oracle { return []Oracle{newDexOracle(w, "C04")} },
-		Quick:      Budget{Runs: 120, MaxEvents: 150},
+		Quick:      Budget{Runs: 320, MaxEvents: 150},
 		Thorough:   Budget{Runs: 4800, MaxEvents: 400},
 		Essential:  []string{"c04.checked_with_pending_requests", "c04.checked_with_live_orders", "c04.checked_with_farmed_coins"},
 		BatchProbe: []string{"c04.checked_with_pending_requests", "c04.checked_with_live_orders", "c04.checked_with_queued_farmers", "c04.checked_with_active_farmers", "c04.supply_change_explained", "dex.block_with_requests"},
@@ -27,13 +27,16 @@ func init() {
 	props["C05"] = &PropSpec{
 		ID: "C05", Level: "exploration", Scenarios: []string{"dex"},
 		Oracles:    func(w *World) []Oracle { return []Oracle{newDexOracle(w, "C05")} },
-		Quick:      Budget{Runs: 120, MaxEvents: 150},
+		Quick:      Budget{Runs: 320, MaxEvents: 150},
 		Thorough:   Budget{Runs: 4800, MaxEvents: 400},
 		Essential:  []string{"c05.batch_checked", "c05.order_checked"},
 		BatchProbe: []string{"c05.batch_checked", "c05.batch_user_vs_pool", "c05.batch_with_several_user_orders", "c05.order_with_several_fills", "c05.multi_price_batch", "c05.dust_positive"},
 		TweakCfg: func(r *Rng, cfg *Config) {
 			cfg.Knobs["order_boost"] = 2
 			cfg.Knobs["oog"] = 0
+			// half of the runs have pure order-book pairs, where orders rest and are filled piece by piece
+			cfg.Knobs["bare_pairs"] = []int64{0, 0, 1, 2, 2, 3}[r.Intn(6)]
+			cfg.Knobs["ladder_boost"] = int64(r.Intn(4))
 		},
 		Rule:   "system-level: one case = one seeded simulated run in which many limit/market/MM orders (on and off tick, at the price limits, tiny and large, lifespans spanning several batches) meet basic and ranged pools; every individual fill of every executed batch is observed through the verif fill hook and checked per batch and pair with exact integer/rational arithmetic; distinct = distinct digest of the (event, outcome) sequence; non-trivial = at least one batch with fills was checked including a per-order limit check against the stored order",
 		Assume: append([]string{"the statement's quantifier over all order books is explored through books that arise in simulated markets, not enumerated"}, dexAssume...),
@@ -41,7 +44,7 @@ func init() {
 	props["C06"] = &PropSpec{
 		ID: "C06", Level: "exploration", Scenarios: []string{"dex"},
 		Oracles:    func(w *World) []Oracle { return []Oracle{newDexOracle(w, "C06")} },
-		Quick:      Budget{Runs: 120, MaxEvents: 150},
+		Quick:      Budget{Runs: 320, MaxEvents: 150},
 		Thorough:   Budget{Runs: 4800, MaxEvents: 400},
 		Essential:  []string{"c06.deposit_checked", "c06.withdraw_checked"},
 		BatchProbe: []string{"c06.deposit_checked", "c06.withdraw_checked", "c06.deposit_checked_ranged", "c06.withdraw_checked_ranged", "c06.withdraw_checked_with_fee", "c06.deposit_partially_accepted", "c06.ranged_price_checked", "c06.immediate_deposit_checked", "c06.immediate_withdraw_checked", "c06.last_share_redeemed"},
@@ -58,12 +61,14 @@ func init() {
 	props["C07"] = &PropSpec{
 		ID: "C07", Level: "exploration", Scenarios: []string{"dex"},
 		Oracles:    func(w *World) []Oracle { return []Oracle{newDexOracle(w, "C07")} },
-		Quick:      Budget{Runs: 120, MaxEvents: 150},
+		Quick:      Budget{Runs: 320, MaxEvents: 150},
 		Thorough:   Budget{Runs: 4800, MaxEvents: 400},
 		Essential:  []string{"c07.placement_checked", "c07.terminated_in_block"},
 		BatchProbe: []string{"c07.placement_checked", "c07.placement_with_fee_reserve", "c07.app_id_differs_from_pair_id", "c07.end.expired", "c07.end.completed", "c07.end.cancelled", "c07.end.partially_filled", "c07.end.mm", "c07.mm_cancel_with_live_orders", "c07.mm_replace_with_live_predecessors", "c07.cancel_of_older_batch_attempted", "c07.escrow_exact_with_live_orders", "c07.block_flows_checked"},
 		TweakCfg: func(r *Rng, cfg *Config) {
 			cfg.Knobs["order_boost"] = 2
+			cfg.Knobs["bare_pairs"] = []int64{0, 0, 1, 2, 3}[r.Intn(5)]
+			cfg.Knobs["ladder_boost"] = int64(r.Intn(3))
 		},
 		Rule:   "one case = one seeded simulated run with per-order tracking from placement to termination for limit, market and MM orders, every ending (completed, expired, cancelled, cancel-all, MM replace/cancel, too-small sweep), swap fee rate in {0, 0.3%, 3%} and app ids that differ from pair ids; distinct = distinct digest of the (event, outcome) sequence; non-trivial = at least one placement and one in-block termination were checked from balance deltas",
 		Assume: append([]string{"fee amounts are accepted under either truncation convention (floor or ceil of rate x amount)"}, dexAssume...),
@@ -71,7 +76,7 @@ func init() {
 	props["C19"] = &PropSpec{
 		ID: "C19", Level: "exploration", Scenarios: []string{"dex"},
 		Oracles:    func(w *World) []Oracle { return []Oracle{newDexOracle(w, "C19")} },
-		Quick:      Budget{Runs: 120, MaxEvents: 150},
+		Quick:      Budget{Runs: 320, MaxEvents: 150},
 		Thorough:   Budget{Runs: 4800, MaxEvents: 400},
 		Essential:  []string{"c19.epoch_checked"},
 		BatchProbe: []string{"c19.gauge_created", "c19.split_checked_with_remainder", "c19.epoch_checked", "c19.epoch_checked_with_remainder", "c19.epoch_paid_something", "c19.farmer_payout_checked", "c19.epoch_with_several_farmers", "c19.custody_checked_with_active_gauges"},
